@@ -288,7 +288,9 @@ class SymArray:
             raise Unsupported(f"ndarray.clip({sorted(kw)})")
         return m_clip(self, min, max)
 
-    def astype(self, t):
+    def astype(self, t, copy=True, **kw):
+        if isinstance(t, numpy.dtype):
+            t = {"i": int, "f": float, "b": bool}.get(t.kind, t) if t.itemsize == 8 or t.kind == "b" else t
         if t in (int, "int", numpy.int64, "int64"):
             dt, f = numpy.dtype(int), R.to_int
         elif t in (float, "float", numpy.float64, "float64"):
@@ -1518,6 +1520,8 @@ _reg_pandas()
 def _i_set(args, kw):
     if args and hasattr(args[0], "_symarray"):
         return SymSet(list(args[0]))
+    if args and isinstance(args[0], (list, tuple)) and any(is_sym(x) for x in args[0]):
+        return SymSet(list(args[0]))      # e.g. set(column.tolist())
     return set(*args)
 
 
